@@ -728,7 +728,20 @@ def r26(ctx: Ctx) -> RuleReport:
                         rec_ok = True
         rep.add('penman.layout:_rearrange: recurses into every nested node with the same key', fi.loc(), 'ok' if rec_ok else 'undecided')
     # rearrange.sort_key
-    sk = ctx.repo.func(L, 'rearrange.sort_key')
+    sk = ctx.repo.maybe_func(L, 'rearrange.sort_key')
+    if sk is None:
+        # the key handed to _rearrange: a nested function, or functools.partial(<module-level function>, ...)
+        ra = ctx.repo.func(L, 'rearrange')
+        for c in walk_local(ra.node):
+            if isinstance(c, ast.Call) and norm(c.func) == '_rearrange' and len(c.args) >= 2:
+                kx = single_def(ctx, ra, c.args[1])
+                if isinstance(kx, ast.Call) and norm(kx.func) in ('partial', 'functools.partial') and kx.args and isinstance(kx.args[0], ast.Name):
+                    sk = ctx.repo.maybe_func(L, kx.args[0].id)
+                elif isinstance(kx, ast.Name):
+                    sk = ctx.repo.maybe_func(L, f'rearrange.{kx.id}') or ctx.repo.maybe_func(L, kx.id)
+    if sk is None:
+        rep.undecided('penman.layout:rearrange: the sort key handed to _rearrange', fi.loc(), 'not found')
+        return rep
     rets = [n for n in walk_local(sk.node) if isinstance(n, ast.Return) and n.value is not None]
     good = len(rets) == 1 and isinstance(rets[0].value, ast.Tuple) and len(rets[0].value.elts) == 2
     if good:
@@ -738,7 +751,7 @@ def r26(ctx: Ctx) -> RuleReport:
         if good:
             rolevar = norm(c2.orelse.args[0])
             unp2 = next((n for n in walk_local(sk.node) if isinstance(n, ast.Assign) and isinstance(n.targets[0], ast.Tuple)
-                         and norm(n.value) == sk.positional[0]), None)
+                         and norm(n.value) in sk.positional), None)
             good = unp2 is not None and norm(unp2.targets[0].elts[0]) == rolevar
     rep.add('penman.layout:rearrange.sort_key: key is (attributes-first criterion, key(role of the branch))', sk.loc(),
             'ok' if good else 'undecided')
@@ -996,7 +1009,8 @@ def r67(ctx: Ctx) -> RuleReport:
             v = v or view(ctx, fi)
             key = f'{fi.module.name}:{fi.qualname}: {norm(n)}'
             # a map created in this function with every entry None holds no node yet
-            fresh = any(isinstance(x, ast.DictComp) and isinstance(x.value, ast.Constant) and x.value.value is None
+            fresh = any((isinstance(x, ast.DictComp) and isinstance(x.value, ast.Constant) and x.value.value is None) or
+                        (isinstance(x, ast.Call) and norm(x.func) == 'dict.fromkeys' and len(x.args) == 1)
                         for val in ctx.cg.local_assigns(fi).get(nm, []) if isinstance(val, ast.AST) for x in [val])
             if fresh:
                 rep.ok(key, fi.loc(n), 'the map was just created with no nodes in it')
